@@ -2,6 +2,7 @@ import MiniconfVerif.Model.PackedDriver
 import MiniconfVerif.Model.PathDriver
 import MiniconfVerif.Model.TreeDriver
 import MiniconfVerif.Model.ValueDriver
+import MiniconfVerif.Model.MqttDriver
 
 open MiniconfVerif
 
@@ -43,6 +44,16 @@ def handle (st : DState) (line : String) : DState × String :=
         | some tid, some sid =>
           match st.tree? tid sid with
           | some t => (st, s!"{id} {ValueDriver.run t rest}")
+          | none => (st, s!"{id} bad-op")
+        | _, _ => (st, s!"{id} bad-op")
+      | _ => (st, s!"{id} bad-op")
+    | "mqm" =>
+      match args with
+      | tid :: sid :: rest =>
+        match tid.toNat?, sid.toNat? with
+        | some tid, some sid =>
+          match st.tree? tid sid with
+          | some t => (st, s!"{id} {MqttDriver.run t rest}")
           | none => (st, s!"{id} bad-op")
         | _, _ => (st, s!"{id} bad-op")
       | _ => (st, s!"{id} bad-op")
